@@ -27,6 +27,7 @@ def tyName : Ty → String
   | .array _ _ => "Array" | .hash _ _ _ => "Hash" | .tuple _ _ => "Tuple" | .struct _ => "Struct" | .variant _ => "Variant"
   | .optional _ => "Optional" | .notUndef _ => "NotUndef" | .typ _ => "Type" | .sensitive _ => "Sensitive"
   | .iterator _ => "Iterator"
+  | .runtime _ _ _ => "Runtime"
   | .iterable _ => "Iterable" | .object _ => "Object"
 
 def Atom.name : Atom → String
